@@ -34,6 +34,31 @@ check("C12", "model_checking",
       "TLA+ refinement check (TLC) + exhaustive replay of spec-enumerated call sequences + trace validation / linearizability search of recorded histories",
       "DESIGN.md section 4 C12")
 
+check("C04", "model_checking",
+      "Game rules of all dice families are functions of the faces in spec/Dice.tla; TLC checks range/partition/pick theorems over "
+      "every (term, face sequence) of a grid (DiceThm), enumerates a replay plan of every face sequence for every parameter tuple "
+      "(DiceGen), the harness forces those faces through hook H2 into the real Roll* functions and the VM syntax, and TLC "
+      "(Trace_Dice) recomputes the rule from the observed Roll calls and compares total, displayed dice (kept|dropped, rounds, marks), "
+      "number of dice rolled, face ranges and error-on-illegal-parameters; the same validation runs on seeded real-generator traces with large parameters.",
+      "Trusted: the harness's parser of annotation text and TLC. Sides/sums < 2^30; larger dice belong to C05.",
+      "TLA+ rule spec + exhaustive forced-face replay (TLC plan) + TLC trace validation of real rolls", "DESIGN.md section 4 C04")
+
+check("C05", "proof",
+      "RollWord.tla (mask / fast check / rejection loop, parametric in the word width): Apalache discharges the uniformity "
+      "conditions (accepted words split evenly over residues, fast path never accepts the biased tail, accept <=> below ceiling, "
+      "face in range) for ALL n and ALL words at widths 64 and 32; TLC counts pre-images literally at widths 6-10; the words the real "
+      "PCG source produced (recovered by cloning the source) and the faces the real Roll returned are checked by Apalache for conformance with the same module.",
+      "Trusted: uniformity of PCG words, Go's integer arithmetic, Apalache/z3. S4 (power-of-two masking) only by TLC at small widths.",
+      "TLA+ proof obligations (Apalache, symbolic 64-bit) + TLC exhaustive small widths + Apalache conformance of recorded generator words", "DESIGN.md section 4 C05")
+
+check("C15", "model_checking",
+      "TLC proves on DiceThm that 'every die at its lowest/highest face' brackets every outcome of every XdY/Fate/CoC term and that the "
+      "bounds equal the closed forms; every TLC-enumerated (term, faces) outcome forced into the real package is compared with the real "
+      "min- and max-mode results of the same term, mode runs are checked die by die (face 1 / sides, no generator movement), and random "
+      "monotone expressions are evaluated in the three modes against the spec's closed-form bounds.",
+      "Trusted: annotation parser, TLC. Monotone = sums of coef*term with coef>=0.",
+      "TLA+ theorems (TLC) + forced-face replay bracketed by real min/max-mode runs + TLC trace validation of expressions", "DESIGN.md section 4 C15")
+
 NOT_YET = "check under construction in this build phase (planned in DESIGN.md section 4); not yet claimed"
 
 m = {
